@@ -356,6 +356,11 @@ class Interp:
         if a.vararg and a.vararg.arg not in env:
             env[a.vararg.arg] = ("list", [])
         pure = owner is not None and self.layer_base is not None and self.layer_base not in self.repo.mro(owner)
+        honest = getattr(fn, "name", None) in getattr(self, "no_default_in", ())
+        if honest:
+            # a rule asked for honest case splits inside this (otherwise "pure") method
+            saved_pd, self.pure_depth = self.pure_depth, 0
+            pure = False
         if pure:
             self.pure_depth += 1
         try:
@@ -369,6 +374,8 @@ class Interp:
         finally:
             if pure:
                 self.pure_depth -= 1
+            if honest:
+                self.pure_depth = saved_pd
 
     def block(self, stmts, env, depth):
         for s in stmts:
